@@ -11,7 +11,7 @@ RULE = (
     "U+2028) x spellings {literal, decimal, hex in both cases, quoted with ' and \" incl. escape forms \\t \\xHH \\uHHHH, "
     "symbolic name}; quote (all 20 + 12 others), escape, decimal, thousands characters; line delimiter names in three "
     "casings (+ none); quoting, skip initial space, header, sheet, ~40 encoding names and aliases and unknown names; "
-    "malformed values per property - each x the four formats (so every inapplicable property/format pair occurs), through "
+    "malformed values per property - each x the four formats and the other documented name of the delimited format, CSV (so every inapplicable property/format pair occurs), through "
     "DataFormat.set_property and through Cid.read; all pairs of (item delimiter, quote, escape, line delimiter) and "
     "(decimal, thousands) values for the consistency rules at CID completion; defaults of unset properties. A case is "
     "(format, property, spelling) or a full settings tuple, distinct by digest, non-trivial unless it restates the default."
@@ -99,7 +99,7 @@ def judge_set(ctx, kind, prop, value, via):
     from cutplace import data, errors, interface
 
     case = {"format": kind, "property": prop, "value": value, "via": via}
-    verdict = M.expect(kind, prop, value)
+    verdict = M.expect("delimited" if kind == "csv" else kind, prop, value)  # "CSV" is the documented other name of "Delimited"
     if verdict[0] == M.UNJUDGED:
         ctx.unjudged(verdict[1])
     observed = None
@@ -225,13 +225,13 @@ def run(ctx):
     ctx.floor("set.judged", 2000)
     ctx.floor("consistency.judged", 200)
     index = 0
-    for kind in KINDS:
-        if ctx.mine(index):
+    for kind in KINDS + ["csv"]:
+        if ctx.mine(index) and kind != "csv":
             judge_defaults(ctx, kind)
         index += 1
         for prop in M.ALL_PROPERTIES:
             pool = value_pool(prop)
-            if prop not in M.APPLIES[kind]:
+            if prop not in M.APPLIES["delimited" if kind == "csv" else kind]:
                 pool = pool[:6]  # the verdict does not depend on the value: property not applicable
             for value in pool:
                 index += 1
